@@ -3,7 +3,16 @@ Scenario: two values.  value ::= :b 0|1 | :i <ty 0..5> <z> | :d <bits> <tolbits>
   (every string / buffer in an allocation of its own), or both payloads inside ONE allocation:
   :am <arena> oa la ob lb   memory buffers [arena+oa,+la) and [arena+ob,+lb)
   :as <arena> oa ob         C strings starting at arena+oa and arena+ob (the arena is followed by one NUL)
-Observation: equals(a,b) equals(b,a) and the six integer getters applied to a ('~' = the getter failed the test)."""
+  or ONE read of a stored value through one accessor of one family of read-back accessors:
+  :rd <family> <store path> <accessor> <stored value | :none> <default>
+     family   :nv MockNamedValue::getXValue | :ac / :acd actual call returnXValue / returnXValueOrDefault(d) | :ms / :msd MockSupport
+              xReturnValue / returnXValueOrDefault(d) | :cac / :cacd / :cms / :cmsd the C table's accessors on the actual call / on
+              mock_c() | :cact / :cmst the MockValue_c union of ->returnValue() (the member named by the tag)
+     store    :cpp andReturnValue(T) | :c the C table's andReturnXValue(T)
+     accessor :bool :int :uint :long :ulong :llong :ullong :double :string :ptr :cptr :fptr :mem
+     default  :b x | :i z | :d bits | :s bytes | :a addr | :m bytes   (of the accessor's type; used by the OrDefault families only)
+Observation: equals(a,b) equals(b,a) and the six integer getters applied to a ('~' = the getter failed the test);
+  for :rd what came back: :b x | :i z | :d bits | :s content | :a addr | :m bytes | :fail (test failed / tag names another member)."""
 import itertools
 from vlib import tz, tb
 ID = "C09"
@@ -14,9 +23,14 @@ RULE = ("exhaustive over the 36 integer type pairs x boundary lattice {min, -2^3
         "differences, buffers of differing length, double classes incl. NaN/inf; payloads sharing ONE allocation: for every small arena "
         "(periodic, with NULs, distinct bytes) all ordered pairs of windows (same address with two lengths, overlap at an offset, "
         "identical pointer and length, disjoint equal content) and all ordered pairs of char pointers (same pointer, into the middle "
-        "of the other string, past an inner NUL); thorough adds random 64-bit values and random arenas up to 48 bytes. "
-        "non-trivial = the two values are of the same kind (so the comparison is not decided by the tag alone) or a getter applies")
-ASSUMPTIONS = ["LP64 data model (int 32, long 64, long long 64)", "values are in range of their declared C type (setValue takes a T)"]
+        "of the other string, past an inner NUL); reads: every stored integer type x boundary value {min, -2^31-1, -2^31, -1, 0, 1, 2^31-1, "
+        "2^31, 2^32-1, 2^32, 2^32+1, 2^63-1, 2^63, 2^64-1} x every integer accessor x every one of the 11 accessor families x both store "
+        "paths, with a default different from the stored value; every non-integer stored kind x every accessor x every family; nothing "
+        "stored x every accessor x every family; thorough adds random 64-bit values and random arenas up to 48 bytes, and random reads. "
+        "non-trivial = the two values are of the same kind (so the comparison is not decided by the tag alone) or a getter applies; "
+        "for a read: a value was stored")
+ASSUMPTIONS = ["LP64 data model (int 32, long 64, long long 64)", "values are in range of their declared C type (setValue takes a T)",
+               "reads: one expected call with the return value, one matching actual call, the unscoped mock(); defaults of the accessor's own type"]
 LO = [-(1 << 31), 0, -(1 << 63), 0, -(1 << 63), 0]
 HI = [(1 << 31) - 1, (1 << 32) - 1, (1 << 63) - 1, (1 << 64) - 1, (1 << 63) - 1, (1 << 64) - 1]
 LATTICE = sorted(set([-(1 << 63), -(1 << 63) + 1, -(1 << 31) - 1, -(1 << 31), -(1 << 31) + 1, -129, -128, -2, -1, 0, 1, 2, 127, 128, 255, 256,
@@ -81,6 +95,101 @@ def ival(t, z):
     return ":i %x %s" % (t, tz(z))
 
 
+# ---- reads through the accessor families ----
+FAMS = [":nv", ":ac", ":acd", ":ms", ":msd", ":cac", ":cacd", ":cms", ":cmsd", ":cact", ":cmst"]
+DEF_FAMS = (":acd", ":msd", ":cacd", ":cmsd")
+INT_ACCS = [":int", ":uint", ":long", ":ulong", ":llong", ":ullong"]
+OTHER_ACCS = [":bool", ":double", ":string", ":ptr", ":cptr", ":fptr", ":mem"]
+ACCS = [":bool"] + INT_ACCS + OTHER_ACCS[1:]
+# the boundary values the property names for read-back
+RLAT = sorted(set([-(1 << 63), -(1 << 31) - 1, -(1 << 31), -1, 0, 1, (1 << 31) - 1, 1 << 31, (1 << 32) - 1, 1 << 32, (1 << 32) + 1,
+                   (1 << 63) - 1, 1 << 63, (1 << 64) - 1]))
+R_OTHERS = [":b 0", ":b 1", ":d 0 0", ":d 3ff0000000000000 0", ":d 7ff8000000000000 0", ":d fff0000000000000 0", ":d 8000000000000000 0", ":d 1 0",
+            ":s ~", ":s $", ":s $6162", ":s $61620063", ":p 0", ":p 1000", ":cp 0", ":cp 1008", ":f 0", ":f 1010"]
+
+
+def rdefault(acc, k=0):
+    """a default of the accessor's type; k picks one of a few (never NaN, no NUL in strings)"""
+    if acc in INT_ACCS:
+        t = INT_ACCS.index(acc)
+        return ":i " + tz([0x4d, HI[t], LO[t], 0][k % 4])
+    return {":bool": [":b 1", ":b 0"], ":double": [":d 4053400000000000", ":d 0"], ":string": [":s $646566", ":s ~"], ":ptr": [":a 2000", ":a 0"],
+            ":cptr": [":a 2008", ":a 0"], ":fptr": [":a 2010", ":a 0"], ":mem": [":m $", ":m $"]}[acc][k % 2]
+
+
+def rd(fam, via, acc, stored, dflt):
+    return ":rd %s %s %s %s %s" % (fam, via, acc, stored, dflt)
+
+
+def rd_ok(fam, via, acc, stored):
+    if acc == ":mem" and fam != ":nv":
+        return False
+    if fam == ":nv" and via == ":c":
+        return False
+    if stored.startswith(":m") and fam != ":nv":
+        return False
+    return True
+
+
+def read_family(tier, rng):
+    out = []
+    ints = [(t, z) for t in range(6) for z in RLAT if LO[t] <= z <= HI[t]]
+    for fam in FAMS:
+        vias = [":cpp"] if fam == ":nv" else [":cpp", ":c"]
+        # every stored integer x every integer accessor, both store paths; the default differs from what is stored
+        for (t, z) in ints:
+            for acc in INT_ACCS:
+                for via in vias:
+                    k = 0 if z != 0x4d else 3
+                    out.append(rd(fam, via, acc, ival(t, z), rdefault(acc, k)))
+            # a stored integer through the non-integer accessors (few values: the answer is decided by the type)
+            if z in (0, 1, -1, HI[t]):
+                for acc in OTHER_ACCS:
+                    if rd_ok(fam, ":cpp", acc, ":i"):
+                        out.append(rd(fam, ":cpp", acc, ival(t, z), rdefault(acc)))
+        # the default at the accessor's own limits against a small stored value of every type (default despite a set value)
+        for t in range(6):
+            for acc in INT_ACCS:
+                for k in (1, 2):
+                    out.append(rd(fam, ":cpp", acc, ival(t, 1), rdefault(acc, k)))
+        # every non-integer stored kind through every accessor
+        for st in R_OTHERS + [":m $", ":m $0102"]:
+            for acc in ACCS:
+                for via in vias:
+                    if rd_ok(fam, via, acc, st) and (via == ":cpp" or acc in (":bool", ":double", ":string", ":ptr", ":cptr", ":fptr", ":int", ":ullong")):
+                        out.append(rd(fam, via, acc, st, rdefault(acc)))
+        # nothing stored
+        for acc in ACCS:
+            if rd_ok(fam, ":cpp", acc, ":none"):
+                for k in (0, 1):
+                    out.append(rd(fam, ":cpp", acc, ":none", rdefault(acc, k)))
+    n = 1500 if tier == "quick" else 120000
+    for _ in range(n):
+        fam = rng.choice(FAMS)
+        via = ":cpp" if fam == ":nv" else rng.choice([":cpp", ":c"])
+        t = rng.randrange(6)
+        c = rng.random()
+        if c < 0.45:
+            z = rng.choice(RLAT) + rng.randrange(-2, 3)
+        elif c < 0.8:
+            z = (1 << rng.randrange(0, 65)) + rng.randrange(-2, 3)
+            if rng.random() < 0.4:
+                z = -z
+        else:
+            z = rng.randrange(LO[t], HI[t] + 1)
+        z = min(max(z, LO[t]), HI[t])
+        acc = rng.choice(INT_ACCS) if rng.random() < 0.9 else rng.choice(OTHER_ACCS[:-1])
+        if acc in INT_ACCS:
+            g = INT_ACCS.index(acc)
+            dz = rng.choice([0x4d, 0, HI[g], LO[g], z & 0xffffffff, min(max(z, LO[g]), HI[g])])
+            d = ":i " + tz(min(max(dz, LO[g]), HI[g]))
+        else:
+            d = rdefault(acc, rng.randrange(2))
+        out.append(rd(fam, via, acc, ival(t, z), d))
+    return out
+
+
+
 def others():
     vs = [":b 0", ":b 1"]
     vs += [":d %x %x" % (d, t) for d in DBL for t in (0, 0x3fe0000000000000, 0x7ff0000000000000, 0x7ff8000000000000, 0xbff0000000000000)]
@@ -113,6 +222,7 @@ def generate(tier, rng):
                     for b in l2[:3]:
                         out.append(a + " " + b)
     out += alias_family(tier, rng)
+    out += read_family(tier, rng)
     n = 3000 if tier == "quick" else 200000
     for _ in range(n):
         t1, t2 = rng.randrange(6), rng.randrange(6)
@@ -139,8 +249,17 @@ def generate(tier, rng):
     return out
 
 
+def rd_parts(s):
+    """(family, store path, accessor, stored tokens, default tokens) of a read scenario"""
+    t = s.split()
+    n = 1 if t[4] == ":none" else (3 if t[4] in (":i", ":d") else 2)
+    return t[1], t[2], t[3], t[4:4 + n], t[4 + n:]
+
+
 def nontrivial(s):
     t = s.split()
+    if t[0] == ":rd":
+        return t[4] != ":none"
     if t[0] in (":am", ":as"):
         return True
     return t[0] == t[3 if t[0] in (":i", ":d") else 2]
@@ -160,8 +279,19 @@ def alias_relation(s):
     return "same pointer" if oa == ob else "different pointers"
 
 
+def stored_kind(st):
+    if st[0] == ":i":
+        return "int type %s" % st[1]
+    return {":none": "nothing", ":b": "bool", ":d": "double", ":s": "string", ":p": "void*", ":cp": "const void*", ":f": "function pointer", ":m": "memory buffer"}[st[0]]
+
+
 def classify(s):
     t = s.split()
+    if t[0] == ":rd":
+        fam, via, acc, st, d = rd_parts(s)
+        return ["read %s: %s accessor of stored %s" % (fam, "integer" if acc in INT_ACCS else "other",
+                                                        "integer" if st[0] == ":i" else ("nothing" if st[0] == ":none" else "non-integer")),
+                "read via store path %s" % via]
     if t[0] in (":am", ":as"):
         return ["%s one allocation: %s" % ("buffers in" if t[0] == ":am" else "strings in", alias_relation(s))]
     k2 = t[3 if t[0] in (":i", ":d") else 2]
@@ -172,6 +302,9 @@ def classify(s):
 
 def signature(s, o):
     t = s.split()
+    if t[0] == ":rd":
+        fam, via, acc, st, d = rd_parts(s)
+        return "read %s %s of stored %s" % (fam, acc, stored_kind(st))
     if t[0] in (":am", ":as"):
         return "%s in one allocation, %s => %s" % ("memory buffers" if t[0] == ":am" else "strings", alias_relation(s), " ".join(o.split()[:2]))
     if t[0] == ":i" and t[3] == ":i":
@@ -179,8 +312,22 @@ def signature(s, o):
     return s + " => " + o
 
 def shrink(s):
-    """aliased scenarios only: cut unused arena bytes, then shorten the windows"""
+    """aliased scenarios: cut unused arena bytes, then shorten the windows; reads: C++ store path, plain default, a stored integer
+    of smaller magnitude (boundary values first)"""
     t = s.split()
+    if t[0] == ":rd":
+        fam, via, acc, st, d = rd_parts(s)
+        if via == ":c":
+            yield rd(fam, ":cpp", acc, " ".join(st), " ".join(d))
+        if d[0] == ":i" and d[1] != "0":
+            yield rd(fam, via, acc, " ".join(st), ":i 0")
+        if st[0] == ":i":
+            ty = int(st[1], 16); z = int(st[2], 16)
+            cands = sorted(set(c for c in RLAT + [z // 2, z - 1 if z > 0 else z + 1, 1 << max(abs(z).bit_length() - 1, 0), -(1 << max(abs(z).bit_length() - 1, 0))]
+                               if abs(c) < abs(z) and LO[ty] <= c <= HI[ty]), key=abs)
+            for c in cands:
+                yield rd(fam, via, acc, ival(ty, c), " ".join(d))
+        return
     if t[0] == ":am":
         ar = bytes.fromhex(t[1][1:]); oa, la, ob, lb = (int(x, 16) for x in t[2:6])
         lo, hi = min(oa, ob), max(oa + la, ob + lb)
@@ -206,11 +353,13 @@ def shrink(s):
 
 LEVEL_TEXT = ("Machine-checked (Coq) theorems over an executable model of MockNamedValue::equals (all 36 integer type pairs with the C casts and "
               "usual arithmetic conversions written out) and of the six integer getters: equality iff same mathematical integer, symmetry, "
-              "cross-kind inequality, NaN, getter exactness/totality; for strings and memory buffers that share one allocation the model compares at "
+              "cross-kind inequality, NaN, getter exactness/totality; every family of read-back accessors (actual call, MockSupport, the C table, the "
+              "MockValue_c union; with and without default) is proved to hand back the exact stored integer or nothing, and a value of its own type only; for strings and memory buffers that share one allocation the model compares at "
               "addresses (MemCmp loop over one arena) and is proved to answer by length and content only, whatever the addresses. Tied to the code by an exhaustive lattice + random differential run of the "
               "extracted model against the real class, with the extracted spec evaluated on the implementation's answers.")
 LEVEL_NOTE = ("Trusted: Coq kernel, extraction (ExtrOcamlBasic), the harness and generators, LP64. Modelled not verified: the C++ itself; doubles other "
-              "than NaN are decided by C03's model of doubles_equal; custom-type comparators are outside the model. Flocq brings the stdlib axioms "
+              "than NaN are decided by C03's model of doubles_equal; custom-type comparators are outside the model; the accessor forwarding table is "
+              "hand-written and tied to the code by observation (spec constrains integer read-back only; the other accessors are compared with the model). Flocq brings the stdlib axioms "
               "classic, functional_extensionality_dep, sig_forall_dec, sig_not_dec (named by Print Assumptions in the evidence).")
 TECHNIQUE = "Coq proof over hand-written executable model + extracted-model/implementation correspondence check (differential, exhaustive boundary lattice)"
 READY = True
